@@ -110,7 +110,6 @@ pub const SPEND_POSITIONS: &[&str] = &[
     "r1bqk2r/pppp1ppp/2n2n2/2b1p3/2B1P3/3P1N2/PPP2PPP/RNBQK2R w KQkq - 0 5",
     "r2q1rk1/ppp2ppp/2n1bn2/2bpp3/4P3/2PP1NP1/PP1N1PBP/R1BQ1RK1 w - - 0 9",
     "2kr3r/ppp2ppp/2n1b3/2b1P3/5Bn1/2N2N2/PPP1B1PP/R4RK1 w - - 0 12",
-    "r4k2/pb2bp1r/1p1qp2p/3pNp2/3P1P2/2N3P1/PPP1Q2P/2KRR3 w - - 0 1",
     "8/5pk1/6p1/R7/5P2/6P1/r4K2/8 w - - 0 40",
 ];
 
@@ -545,7 +544,7 @@ pub fn run(tier: &str, seed: u64, out: &str) {
     }
     let mut sunits: Vec<(usize, u64, u64)> = Vec::new();
     for pi in 0..SPEND_POSITIONS.len() {
-        for t in [600u64, 2500, 8000, 20_000] {
+        for t in [600u64, 8000, 60_000, 400_000] {
             for inc in [0, t / 2, t, 3 * t] {
                 sunits.push((pi, t, inc));
             }
@@ -625,7 +624,7 @@ pub fn run(tier: &str, seed: u64, out: &str) {
         .set("movestogo", J::obj().set("go_lines", mn).set("rule", "movestogo N (N in 0,1,2,10,40) in each of the five slots around the four clock pairs, three pair orders, own time over the 19 grid values, own increment over the 6 grid values + time/2, time, 3*time, three opponent clocks; the budget must fit and must not change with the opponent's clock (lines with a different layout or N are not compared)"))
         .set("session_stages", J::obj().set("go_lines", sn).set("rule", "the same go line as the very first go of a fresh engine, repeated, as the first go after ucinewgame, and after a real depth-1 search; fit and independence from the opponent's clock per stage"))
         .set("pairs_of_go_commands", J::obj().set("pairs", pn).set("rule", "two clock-based go commands in one game (no ucinewgame between): own clock of each over 0, 1, 100, 3000, 60000, 303000, 3600000 ms x increment 0, 1000, 60000, both sides to move, three opponent-clock variants; the second budget must fit its clock and be the same for all opponent variants"))
-        .set("budget_as_spent", J::obj().set("real_go_commands", spn).set("positions", SPEND_POSITIONS.len()).set("largest_share_of_the_clock_spent_permille", sp_max).set("rule", "real go (not dry run) under the node clock on middlegame positions, own clock 600 / 2500 / 8000 / 20000 ms x increment 0, time/2, time, 3*time: virtual time elapsed when the answer comes (nodes visited) must be below the mover's clock (+ the C07 allowance of 2048 nodes)"))
+        .set("budget_as_spent", J::obj().set("real_go_commands", spn).set("positions", SPEND_POSITIONS.len()).set("largest_share_of_the_clock_spent_permille", sp_max).set("rule", "real go (not dry run) under the node clock on middlegame positions, own clock 600 / 8000 / 60000 / 400000 ms x increment 0, time/2, time, 3*time: virtual time elapsed when the answer comes (nodes visited) must be below the mover's clock (+ the C07 allowance of 2048 nodes)"))
         .set("exhaustive", true)
         .set("samples", samples);
     rep.finish(
